@@ -420,6 +420,10 @@ func symBinop(op token.Token, t types.Type, x, y value) value {
 			return arith("fp.add", "bvadd")
 		case token.SUB:
 			return arith("fp.sub", "bvsub")
+		case token.MUL:
+			return &sym{e: "(fp.mul RNE " + a.e + " " + b.e + ")", k: symFP}
+		case token.QUO:
+			return &sym{e: "(fp.div RNE " + a.e + " " + b.e + ")", k: symFP}
 		case token.EQL:
 			return mkBool("(fp.eq " + a.e + " " + b.e + ")")
 		case token.NEQ:
